@@ -186,6 +186,9 @@ int std_configs(wcfg_t *out, int max, int thorough)
     n = add_cfg(out, n, max, V_TLS12, V_MULTI, KX_PSK, 0, 0, 0, 0);
     n = add_cfg(out, n, max, V_TLS12, V_MULTI, KX_RSA, 0, 0, 0, 0);
     n = add_cfg(out, n, max, V_TLS13, V_MULTI, KX_13_RSA, 0, 0, 0, 0);
+    /* a server session that is early-data capable (tls13SessionMaxEarlyData > 0) facing a client that offers none: the
+       licence to skip undecryptable records must not exist here */
+    n = add_cfg(out, n, max, V_TLS13, 0, KX_13_RSA, 0, 0, 1, 0);
     if (thorough)
     {
         int kx;
